@@ -42,6 +42,9 @@ def axis_rule(rep, prog, rule):
                 key = "precompute|%s" % ("X" if pure == {"X"} else "Y" if pure == {"Y"} else "mixed")
                 if len(pure) == 1 and "T" not in pure:
                     rep.ok(rule, "precompute#%d" % n, c.at, "inputs %s" % kinds)
+                elif not pure:
+                    rep.unk(rule, "precompute#%d" % n, c.at, "the axis of the inputs is not recognised: %s"
+                            % [fmt(subst(gs.operand(a), mapping))[:40] for a in c.args[:4]])
                 else:
                     rep.bad(rule, "precompute|mixed#%d" % n, c.at, "precompute_coefficients(in_size, "
                             "in0, in1, out_size) receives kinds %s: %s" % (
@@ -301,13 +304,18 @@ def window_clamp(rep, prog, rule):
                         nxt.append(tg)
         frontier = nxt
     for g in scope:
-        if g is f:
-            continue            # the scale / window computations of the function itself divide too
         for blk in g.blocks:
             for st in blk["s"]:
-                if st[0] == "a" and st[2][0] == "bin" and st[2][1] == "Div" and \
-                        (g.local_ty(st[1][0]) if len(st[1]) == 1 else "f64") in ("f64", None) or \
-                        (st[0] == "a" and st[2][0] == "bin" and st[2][1] == "Div" and "*" in st[1][1:]):
+                if not (st[0] == "a" and st[2][0] == "bin" and st[2][1] == "Div"):
+                    continue
+                through_ref = "*" in st[1][1:]          # `*w /= sum` on an element of the vector
+                if g is f:
+                    # the scale / window computations of the function itself divide too: there only
+                    # an in-place division of an element counts
+                    if through_ref:
+                        found = True
+                    continue
+                if through_ref or (g.local_ty(st[1][0]) if len(st[1]) == 1 else "f64") in ("f64", None):
                     found = True
     if found:
         rep.ok(rule, "normalise", f.loc, "weights divided by their sum")
